@@ -242,6 +242,12 @@ class Model:
         if prev is None:
             return "ok"
         if rec.rt in ("O", "U") and prev.rt == rec.rt:
+            have = {t[0]: t for t in prev.tags}
+            for t in rec.tags:
+                if t[0] in have and S.canon_tag(*have[t[0]]) != S.canon_tag(*t):
+                    # the same tag defined differently on two lines of a group: which one holds, or
+                    # whether the line is refused, is not specified
+                    return "unspec"
             return "merge"
         if rec.rt in ("O", "U") and prev.rt in ("O", "U"):
             return "unspec"
